@@ -21,6 +21,7 @@ VIOLATION_MSGS = [
     r'constructed value may fail to meet its declared type invariant',
     r'loop invariant not satisfied',
     r'checked .* may fail',
+    r'unable to prove post-condition of closure',
 ]
 UNDECIDED_MSGS = [
     r'Resource limit \(rlimit\) exceeded', r'rlimit', r'timed out', r'not supported', r'unsupported',
@@ -122,6 +123,8 @@ def run(asm, unit, build_dir, tag='unit', rlimit=None, extra_args=(), timeout=90
         item, in_vac, line_no, span_text, label = None, False, None, '', None
         ordered = ([prim] if prim else []) + [s for s in spans if s is not prim]
         for s in ordered:
+            if os.path.basename(s.get('file_name', '')) != os.path.basename(path):
+                continue        # span inside vstd / std specs: line numbers there mean nothing for this file
             k, v = _line_item(asm, s['line_start'])
             if k is not None and item is None:
                 item, in_vac = k, v
@@ -131,7 +134,7 @@ def run(asm, unit, build_dir, tag='unit', rlimit=None, extra_args=(), timeout=90
             for ln in range(prim['line_start'], prim['line_end'] + 1):
                 m = LABEL.search(asm.lines[ln - 1]) if ln - 1 < len(asm.lines) else None
                 if m: label = m.group(1); break
-        if item is None and prim:
+        if item is None and prim and os.path.basename(prim.get('file_name', '')) == os.path.basename(path):
             item = _prelude_fn(asm, prim['line_start'])
         if any(re.search(p_, msg) for p_ in UNDECIDED_MSGS):
             if not in_vac:
